@@ -1,6 +1,7 @@
 // Engine C, C09: explicit-state search over operation sequences on the real DepsLog (Load /
 // OpenForWrite / RecordDeps / Close / Recompact), every tear offset of every reached file, garbage
 // tails over a word alphabet, and continuations.  Reference model: lp::ParseDepsLog.
+#include <setjmp.h>
 #include <stdio.h>
 #include <string.h>
 
@@ -89,6 +90,9 @@ struct Op {
 
 struct Viol { string clause, detail; };
 
+static jmp_buf g_crash_jmp;
+static void OnCrashLx() { longjmp(g_crash_jmp, 1); }
+
 struct Harness {
   vector<Viol> viols;
   uint64_t ops = 0, loads = 0;
@@ -145,6 +149,74 @@ struct Harness {
     return true;
   }
 
+  uint64_t crash_points = 0;
+  bool sweep_crashes = true;
+
+  /// The process dies at every mutating file operation of a recompaction (a write may land partly):
+  /// whatever is on disk afterwards must still give every live output the dependencies most
+  /// recently recorded for it, and must invent nothing.
+  void RecompactCrashSweep(const vfs::Disk& d0, const Op& op, const DepsMap& before, const string& when) {
+    vector<vfs::OpRecord> oplog;
+    {
+      vfs::Disk c = d0;
+      vfs::disk = &c;
+      vfs::ResetInvocation();
+      vfs::op_log = &oplog;
+      World w(op.live);
+      DepsLog log;
+      string err;
+      if (log.Load(kPath, w.state.get(), &err) != LOAD_ERROR && c.Get(kPath)) log.Recompact(kPath, &err);
+      vfs::op_log = nullptr;
+    }
+    for (size_t k = 0; k < oplog.size(); ++k) {
+      for (int tear : {-1, 5}) {
+        if (tear >= 0 && oplog[k].kind != vfs::kOpWrite) continue;
+        vfs::Disk c = d0;
+        vfs::disk = &c;
+        vfs::ResetInvocation();
+        vfs::crash_at = (int64_t)k;
+        vfs::crash_tear = tear;
+        vfs::on_crash = OnCrashLx;
+        if (!setjmp(g_crash_jmp)) {
+          // heap objects: a simulated death must not run destructors that would flush to the disk
+          World* w = new World(op.live);
+          DepsLog* log = new DepsLog;
+          string err;
+          if (log->Load(kPath, w->state.get(), &err) != LOAD_ERROR) log->Recompact(kPath, &err);
+          vfs::dead = true;
+        }
+        vfs::dead = true;
+        vfs::CloseLeakedStreams();
+        vfs::ResetInvocation();
+        vfs::crash_at = -1;
+        vfs::crash_tear = -1;
+        vfs::on_crash = nullptr;
+        crash_points++;
+        string at = when + " killed at file operation " + to_string(k) + "/" + to_string(oplog.size()) +
+                    (tear >= 0 ? " (5 bytes of the write land)" : "");
+        DepsMap got;
+        vfs::Disk probe = c;
+        CheckLoad(&probe, &got, at, false);
+        for (auto& kv : before) {
+          if (!op.live.count(kv.first)) continue;
+          auto it = got.find(kv.first);
+          if (it == got.end()) { Bad("recompaction-crash-loses-records", at + ": the deps of '" + kv.first + "' are gone; on disk: " + Files(c)); break; }
+          if (!(it->second == kv.second)) { Bad("recompaction-crash-changes-records", at + ": deps of '" + kv.first + "' changed"); break; }
+        }
+        for (auto& kv : got) {
+          auto it = before.find(kv.first);
+          if (it == before.end() || !(it->second == kv.second)) { Bad("recompaction-crash-invents-records", at + ": '" + kv.first + "'"); break; }
+        }
+      }
+    }
+    vfs::disk = nullptr;
+  }
+  static string Files(const vfs::Disk& d) {
+    string s;
+    for (auto& kv : d.files) s += kv.first + "(" + to_string(kv.second.data.size()) + ") ";
+    return s;
+  }
+
   void Apply(const Op& op, vfs::Disk* d, const string& when) {
     ops++;
     vfs::disk = d;
@@ -157,6 +229,7 @@ struct Harness {
     }
     if (op.kind == Op::kRecompact) {
       if (!d->Get(kPath)) return;
+      if (sweep_crashes) { RecompactCrashSweep(*d, op, before, when); vfs::disk = d; }
       World w(op.live);
       DepsLog log;
       string err;
@@ -354,6 +427,7 @@ int main(int argc, char** argv) {
         { vfs::Disk probe = t.disk; H.CheckLoad(&probe, nullptr, "load after tear@" + to_string(o)); }
         report(t.trail);
         for (auto& c1 : cont) {
+          H.sweep_crashes = true;
           Node t1 = t;
           t1.trail.push_back(c1.label);
           H.Apply(c1, &t1.disk, c1.label);
@@ -361,6 +435,7 @@ int main(int argc, char** argv) {
           report(t1.trail);
           if (cont_depth >= 2)
             for (auto& c2 : cont) {
+              H.sweep_crashes = false;   // crash sweeps: clean states and the first step after a tear
               Node t2 = t1;
               t2.trail.push_back(c2.label);
               H.Apply(c2, &t2.disk, c2.label);
@@ -434,6 +509,7 @@ int main(int argc, char** argv) {
       Node m = n;
       m.trail.push_back(op.label);
       m.depth = n.depth + 1;
+      H.sweep_crashes = true;
       H.Apply(op, &m.disk, op.label);
       transitions++;
       if (shard == 0) report(m.trail); else H.viols.clear();
@@ -448,6 +524,7 @@ int main(int argc, char** argv) {
   out.set("transitions", transitions);
   out.set("tears", tears);
   out.set("garbage_tails", garbage);
+  out.set("crash_points", H.crash_points);
   out.set("continuations", conts);
   out.set("ops", H.ops);
   out.set("loads", H.loads);
